@@ -14,6 +14,7 @@ import Bita.Spec.InPlace
 import Bita.Model.Archive
 import Bita.Model.Blake2b
 import Bita.Model.Clone
+import Bita.Model.ReaderEnv
 import Bita.Model.Cli
 import Bita.Model.Schedule
 import Driver.Proto
@@ -261,7 +262,14 @@ def handle (toks : List String) : Option String :=
       | [k, v] => do some (← parseHex k, ← parseHex v)
       | _ => none)
     let decomp := limitedDecomp fun (_ : Nat) (stored : Bytes) => (tab.find? (·.1 = stored)).map (·.2)
-    let r := Clone.run Blake2b.hash decomp [] (honestReadAt archive) (honestReadChunks archive) opts (← parseHex prior) seeds
+    -- flag `h`: through the remote reader, against an honest server without transfer failures; the
+    -- answer then also lists every range request on the wire, in order
+    let http := o.contains 'h'
+    let env : HttpEnv := ⟨honestServe archive, 0, fun _ _ => [.full []], List.replicate (archive.length + 1) (.full [])⟩
+    let prior ← parseHex prior
+    let r := if http then Clone.run Blake2b.hash decomp [] env.readAt env.readChunks opts prior seeds
+      else Clone.run Blake2b.hash decomp [] (honestReadAt archive) (honestReadChunks archive) opts prior seeds
+    let wire := if http then s!" wire={joinWith "," ((r.requests.flatMap env.wire).map fun (o, s) => s!"{o}:{s}")}" else ""
     let res := match r.result with
       | .ok => "ok"
       | .err _ => "err"
@@ -272,7 +280,7 @@ def handle (toks : List String) : Option String :=
     if cmd = "clone-w" then
       some s!"result={res} out={digest r.output} writes={joinWith "," ((Spec.writesOf r.log).map fun (o, d) => s!"{o}.{digest d}")}"
     else
-    some s!"result={res} out={digest r.output}{if short then "" else if noWrites then s!" fetch={joinWith "|" fetch}" else s!" writes={joinWith "," ((Spec.writesOf r.log).map fun (o, d) => s!"{o}.{digest d}")} fetch={joinWith "|" fetch}"}"
+    some s!"result={res} out={digest r.output}{if short then "" else if noWrites then s!" fetch={joinWith "|" fetch}" else s!" writes={joinWith "," ((Spec.writesOf r.log).map fun (o, d) => s!"{o}.{digest d}")} fetch={joinWith "|" fetch}"}{wire}"
   -- cli-clone <output state> <flags> <archive kind> : one row of C14's table on a model file system
   | ["cli-clone", outState, flags, akind] => do
     let src : Bytes := pattern 700
